@@ -28,7 +28,13 @@ class Scanner(object):
         if len(loops) != 1:
             raise Unknown('split_command_line: expected one top-level for loop')
         self.loop = loops[0]
-        if not (isinstance(self.loop.target, ast.Name) and isinstance(self.loop.iter, ast.Name) and self.loop.iter.id == fi.params[0]):
+        self.pre = None
+        it = self.loop.iter
+        if isinstance(it, ast.Call) and isinstance(it.func, ast.Attribute) and it.func.attr in ('strip', 'rstrip', 'lstrip') \
+                and not it.args and isinstance(it.func.value, ast.Name) and it.func.value.id == fi.params[0]:
+            self.pre = it.func.attr      # whitespace trimmed BEFORE the quoting rules are applied: modelled in explore()
+            it = it.func.value
+        if not (isinstance(self.loop.target, ast.Name) and isinstance(it, ast.Name) and it.id == fi.params[0]):
             raise Unknown('split_command_line: the loop does not iterate the command line character by character')
         self.cvar = self.loop.target.id
         self.consts = {}
@@ -294,6 +300,28 @@ def explore(sc):
             if fin != want:
                 mism.append((path, 'at end of input after %s: expected %s, scanner does %s'
                              % (pretty(path), 'the open argument to be pushed' if mode == 'ARG' else 'nothing', list(fin) or 'nothing')))
+        if sc.pre in ('strip', 'rstrip'):
+            # the scanner never sees trailing whitespace: wherever the real input may continue with whitespace only,
+            # what the scanner does at (its) end of input must equal what the rules demand for <rest of whitespace><end>
+            allowed, sev, nmode = spec_step(mode, W)
+            if allowed:
+                want_ev = list(sev)
+                m2 = nmode
+                for _ in range(2):
+                    if m2 in ('WS', 'ARG'):
+                        break
+                    a2, e2, m2 = spec_step(m2, W)
+                    want_ev += list(e2)
+                if m2 in ('WS', 'ARG'):
+                    # further whitespace is a no-op in WS; in ARG the next one pushes
+                    if m2 == 'ARG':
+                        want_ev.append('PUSH')
+                    got = [('PUSH' if x == 'PUSH-without-reset' else x) for x in sc.final_push(cs, cae)]
+                    if got != want_ev:
+                        mism.append((path + (W,), 'input %s followed by whitespace up to its end: the %s() applied before scanning removes that '
+                                     'whitespace although the rules say it is %s; expected %s, scanner does %s'
+                                     % (pretty(path), sc.pre, 'protected by the preceding backslash / quote' if 'APPEND' in want_ev else 'a separator',
+                                        want_ev or 'nothing', got or 'nothing')))
         for cls in sc.classes:
             allowed, sev, nmode = spec_step(mode, cls)
             if not allowed:
